@@ -270,7 +270,7 @@ def run(pid, tier, seed):
               f'post phase {wall - t_pool:.1f}s', file=sys.stderr)
     cov = dict(
         evaluations=total.evaluations,
-        distinct_nontrivial=len(total.nontrivial),
+        distinct_nontrivial=len(total.nontrivial) + int(total.extra.get('bulk_distinct_nontrivial', 0)),
         rule=mod.RULE,
         samples=total.samples[:MAX_SAMPLES],
         classes=dict(sorted(total.classes.items())),
@@ -289,7 +289,7 @@ def run(pid, tier, seed):
     with open(os.path.join(OUT, 'evidence', f'{pid}.json'), 'w') as f:
         json.dump(ev, f, indent=1, default=str)
     print(f'{pid} {tier} seed={seed}: {total.evaluations} evaluations, '
-          f'{len(total.nontrivial)} distinct non-trivial, {total.inconclusive} inconclusive, '
+          f'{len(total.nontrivial) + int(total.extra.get("bulk_distinct_nontrivial", 0))} distinct non-trivial, {total.inconclusive} inconclusive, '
           f'{total.excluded} excluded-known, {len(known_hit)} known finding(s), '
           f'{len(violations)} violation(s), {wall:.1f}s')
     return 1 if violations else 0
